@@ -35,12 +35,12 @@ fn apply(st: &mut Vec<C>, g: &Gate) -> Result<(), String> {
     }
     Ok(())
 }
-fn unitary(c: &Circuit, n: usize) -> Result<Vec<Vec<C>>, String> {
+pub fn unitary(c: &Circuit, n: usize) -> Result<Vec<Vec<C>>, String> {
     let mut cols = vec![];
     for b in 0..1usize << n { let mut st = vec![C::zero(); 1 << n]; st[b] = C::new(1.0, 0.0); for g in &c.gates { apply(&mut st, g)?; } cols.push(st); }
     Ok(cols)
 }
-fn close(a: &Vec<Vec<C>>, b: &Vec<Vec<C>>) -> bool { a.iter().zip(b).all(|(x, y)| x.iter().zip(y).all(|(p, q)| (p - q).norm() < 1e-9)) }
+pub fn close(a: &Vec<Vec<C>>, b: &Vec<Vec<C>>) -> bool { a.iter().zip(b).all(|(x, y)| x.iter().zip(y).all(|(p, q)| (p - q).norm() < 1e-9)) }
 fn is_ident(a: &Vec<Vec<C>>) -> bool { a.iter().enumerate().all(|(i, col)| col.iter().enumerate().all(|(j, x)| (x - if i == j { C::new(1.0, 0.0) } else { C::zero() }).norm() < 1e-9)) }
 fn ph(n: i64, d: i64) -> Phase { Phase::new(Rational64::new(n, d)) }
 fn basic_kind(t: GType) -> bool { !matches!(t, TOFF | CCZ | ParityPhase | UnknownGate) }
